@@ -55,6 +55,22 @@ type c18Write struct {
 	Direct bool   `json:"direct"`
 }
 
+type c18CTSet struct {
+	Pos       string   `json:"pos"`
+	Func      string   `json:"func"`
+	Values    []string `json:"values"` // nil: not a constant
+	Known     bool     `json:"known"`
+	RawWriter bool     `json:"raw_writer"`
+	Text      string   `json:"text"`
+}
+
+type c18Echo struct {
+	Pos  string `json:"pos"`
+	Func string `json:"func"`
+	Via  string `json:"via"` // writeFailureResponse | http.Error
+	Text string `json:"text"`
+}
+
 type c18Exec struct {
 	Pos            string `json:"pos"`
 	Func           string `json:"func"`
@@ -461,6 +477,8 @@ func genC18(e *emitter) {
 		ast.Inspect(f, visit)
 	}
 
+	ctSets, echoes, params, failFmt := c18ResponseFacts(c, fileNames)
+
 	var b strings.Builder
 	b.WriteString("import KM.Model.Html\nnamespace KM.Gen\nopen KM.Html\n\n")
 	b.WriteString("/-- every `template.HTML/JS/URL/HTMLAttr/CSS/JSStr/Srcset(...)` conversion of cmd/keymasterd -/\n")
@@ -515,8 +533,30 @@ func genC18(e *emitter) {
 	b.WriteString("]\n\n")
 	fmt.Fprintf(&b, "/-- `RuntimeState.htmlTemplate` has type `*\"html/template\".Template` -/\ndef htmlTemplateFieldIsHtmlTemplate : Bool := %s\n\n", leanBool(htmlTemplateField))
 	fmt.Fprintf(&b, "/-- calls of a `Funcs` method (custom template functions could return unescaped HTML) -/\ndef templateFuncsCalls : Nat := %d\n", funcsCalls)
+	b.WriteString("\n/-- every explicit `Header().Set/Add(\"Content-Type\", v)` -/\ndef contentTypeSets : List CTSet := [\n")
+	for i, x := range ctSets {
+		sep := ","
+		if i == len(ctSets)-1 {
+			sep = ""
+		}
+		vals := "none"
+		if x.Known {
+			var q []string
+			for _, v := range x.Values {
+				q = append(q, leanStr(v)+".toList")
+			}
+			vals = "some [" + strings.Join(q, ", ") + "]"
+		}
+		fmt.Fprintf(&b, "  ⟨%s.toList, %s, %s⟩%s  -- %s: %s\n", leanStr(x.Func), vals, leanBool(x.RawWriter), sep, x.Pos, x.Text)
+	}
+	b.WriteString("]\n\n")
+	fmt.Fprintf(&b, "/-- format of the plain failure body built in `writeFailureResponse` -/\ndef failureTextFormat : List Char := %s.toList\n", leanStr(failFmt))
 	b.WriteString("\nend KM.Gen\n")
 	e.lean("C18.lean", b.String())
+	e.facts["c18_content_type_sets"] = ctSets
+	e.facts["c18_echo_sites"] = echoes
+	e.facts["c18_form_params"] = params
+	e.facts["c18_failure_text_format"] = failFmt
 	e.facts["c18_raw_html_sites"] = sites
 	e.facts["c18_safe_fields"] = fields
 	e.facts["c18_safe_field_writes"] = writes
@@ -568,4 +608,143 @@ func c18IsResponseWriterParam(imp map[string]string, fd *ast.FuncDecl, name stri
 		}
 	}
 	return false
+}
+
+// c18ResponseFacts (round 2): explicit Content-Type headers, error paths whose message is not a
+// constant (they may echo request input), form parameter names read anywhere, and the format of
+// the plain failure body.
+func c18ResponseFacts(c *c18ctx, fileNames []string) ([]c18CTSet, []c18Echo, []string, string) {
+	p := c.p
+	var sets []c18CTSet
+	var echoes []c18Echo
+	paramSet := map[string]bool{}
+	failFmt := ""
+	for _, n := range fileNames {
+		f := p.files[n]
+		imp := c18Imports(f)
+		for _, d := range f.Decls {
+			fd, ok := d.(*ast.FuncDecl)
+			if !ok || fd.Body == nil {
+				continue
+			}
+			// names of ResponseWriter parameters
+			rw := map[string]bool{}
+			if fd.Type.Params != nil {
+				for _, fl := range fd.Type.Params.List {
+					if path, tn, ok := c18Sel(imp, fl.Type); ok && path == "net/http" && tn == "ResponseWriter" {
+						for _, nm := range fl.Names {
+							rw[nm.Name] = true
+						}
+					}
+				}
+			}
+			rawWriter := false
+			var local []c18CTSet
+			ast.Inspect(fd.Body, func(nd ast.Node) bool {
+				switch x := nd.(type) {
+				case *ast.IndexExpr:
+					if sel, ok := x.X.(*ast.SelectorExpr); ok && (sel.Sel.Name == "Form" || sel.Sel.Name == "PostForm") {
+						if s, ok := p.evalStr(x.Index); ok {
+							paramSet[s] = true
+						}
+					}
+				case *ast.CallExpr:
+					sel, ok := x.Fun.(*ast.SelectorExpr)
+					if !ok {
+						return true
+					}
+					name := sel.Sel.Name
+					// form parameter names
+					if (name == "FormValue" || name == "PostFormValue") && len(x.Args) == 1 {
+						if s, ok := p.evalStr(x.Args[0]); ok {
+							paramSet[s] = true
+						}
+					}
+					if name == "Get" && len(x.Args) == 1 {
+						if inner, ok := sel.X.(*ast.SelectorExpr); ok && (inner.Sel.Name == "Form" || inner.Sel.Name == "PostForm") {
+							if s, ok := p.evalStr(x.Args[0]); ok {
+								paramSet[s] = true
+							}
+						}
+					}
+					// raw writes to the response
+					if id, ok := sel.X.(*ast.Ident); ok && rw[id.Name] && name == "Write" {
+						rawWriter = true
+					}
+					if path, fn, ok := c18Sel(imp, x.Fun); ok && len(x.Args) >= 1 {
+						if id, ok2 := x.Args[0].(*ast.Ident); ok2 && rw[id.Name] &&
+							((path == "fmt" && strings.HasPrefix(fn, "Fprint")) || (path == "io" && fn == "WriteString")) {
+							rawWriter = true
+						}
+						if path == "net/http" && fn == "Error" && len(x.Args) == 3 {
+							if _, isConst := p.evalStr(x.Args[1]); !isConst || c.shadowed(fd, x.Args[1]) {
+								echoes = append(echoes, c18Echo{Pos: p.pos(x), Func: fd.Name.Name, Via: "http.Error", Text: p.str(x.Args[1])})
+							}
+						}
+					}
+					if name == "writeFailureResponse" && len(x.Args) == 4 {
+						if _, isConst := p.evalStr(x.Args[3]); !isConst || c.shadowed(fd, x.Args[3]) {
+							echoes = append(echoes, c18Echo{Pos: p.pos(x), Func: fd.Name.Name, Via: "writeFailureResponse", Text: p.str(x.Args[3])})
+						}
+					}
+					// Header().Set("Content-Type", v)
+					if (name == "Set" || name == "Add") && len(x.Args) == 2 {
+						if inner, ok := sel.X.(*ast.CallExpr); ok {
+							if isel, ok := inner.Fun.(*ast.SelectorExpr); ok && isel.Sel.Name == "Header" {
+								if k, ok := p.evalStr(x.Args[0]); ok && strings.EqualFold(k, "Content-Type") {
+									cs := c18CTSet{Pos: p.pos(x), Func: fd.Name.Name, Text: p.str(x.Args[1])}
+									cs.Values, cs.Known = c18ConstValues(p, c, fd, x.Args[1])
+									local = append(local, cs)
+								}
+							}
+						}
+					}
+					// the failure body
+					if fd.Name.Name == "writeFailureResponse" {
+						if path, fn, ok := c18Sel(imp, x.Fun); ok && path == "fmt" && fn == "Sprintf" && len(x.Args) == 4 && failFmt == "" {
+							if s, ok := p.evalStr(x.Args[0]); ok {
+								failFmt = s
+							}
+						}
+					}
+				}
+				return true
+			})
+			for _, cs := range local {
+				cs.RawWriter = rawWriter
+				sets = append(sets, cs)
+			}
+		}
+	}
+	var params []string
+	for k := range paramSet {
+		params = append(params, k)
+	}
+	sort.Strings(params)
+	return sets, echoes, params, failFmt
+}
+
+// c18ConstValues: the constant(s) an expression can hold: a constant, or a local variable whose
+// every assignment is a constant.
+func c18ConstValues(p *pkgInfo, c *c18ctx, fd *ast.FuncDecl, e ast.Expr) ([]string, bool) {
+	if s, ok := p.evalStr(e); ok && !c.shadowed(fd, e) {
+		return []string{s}, true
+	}
+	id, ok := e.(*ast.Ident)
+	if !ok {
+		return nil, false
+	}
+	rhs := assignmentsTo(fd, id.Name)
+	if len(rhs) == 0 {
+		return nil, false
+	}
+	var out []string
+	for _, r := range rhs {
+		s, ok := p.evalStr(r)
+		if !ok || c.shadowed(fd, r) {
+			return nil, false
+		}
+		out = append(out, s)
+	}
+	return out, true
 }
